@@ -118,6 +118,22 @@ Fixpoint veq_exact (a b : val) {struct a} : bool :=
   | _, _ => false
   end.
 
+(* equality of the encoded JSON text: order-sensitive, the two float zeros differ *)
+Definition seq_text (a b : scalar) : bool :=
+  match a, b with
+  | SFloat (FZero x), SFloat (FZero y) => Bool.eqb x y
+  | _, _ => seq_strict a b
+  end.
+Fixpoint veq_text (a b : val) {struct a} : bool :=
+  match a, b with
+  | VS x, VS y => seq_text x y
+  | VL l, VL m => forall2b veq_text l m
+  | VD d, VD e =>
+      forall2b (fun (kv : key * val) (kw : key * val) =>
+                  let (k, v) := kv in key_eqb k (fst kw) && veq_text v (snd kw)) d e
+  | _, _ => false
+  end.
+
 Definition veq_py := veq_with seq_py.          (* Python ==  *)
 Definition veq_strict := veq_with seq_strict.  (* equal and same JSON type at every leaf *)
 
